@@ -204,9 +204,14 @@ func checkProperty(prop, tier, repo, verif string, seed int, t0 time.Time) int {
 	if h, ok := specialChecks[prop]; ok {
 		return h(eng, prop, tier, seed, t0, evPath)
 	}
-	timeout := 45
+	// per-obligation solver budget: obligations of the claimed set discharge in well under it on an idle machine
+	// (the slowest, C19's bit-precise FP goals, need ~30 s); the margin absorbs a loaded machine
+	timeout := 75
+	if prop == "C19" {
+		timeout = 150
+	}
 	if tier == "thorough" {
-		timeout = 120
+		timeout = 240
 	}
 	modes := []struct {
 		name string
